@@ -195,6 +195,22 @@ def run(ctx):
             ctx.violation("C20 fails on the implementation's matrix: " + "; ".join(fails[:4]),
                           {"case": {k: (dec(v) if k != "kind" else v) for k, v in c.items()}, "go_output": o,
                            "failures": fails, "how": "harness/bin/dump stiff  (Element.StiffnessGlobalMat)"})
+    # the matrices as the assembly obtains them (however it asks for them): a bar cut into many unequal finite elements, every
+    # 6 x 6 block of the assembled system against the stiffness of that element's own sub-span
+    if not ctx.replay:
+        from .. import stages as S_, oracles as O_, gen_struct as G_
+        from . import core as core_
+        many = [core_.case_from_struct(G_.gen_many_positions(rng, npos, 0), Weight=False, Assemble=True) for npos in ((18, 27) if ctx.tier == "quick" else (18, 27, 30, 22, 16))]
+        many += [dict(c, Procs=1, Isolate=True) for c in many[:1]]
+        for c, o in zip(many, S_.run_pipeline(ctx, many)):
+            if o.get("ParsePanic") or not o.get("Pre") or o["Pre"][-1].get("Panic"):
+                continue
+            fails = O_.c17_structure(o, o["Pre"][-1])
+            if fails and concrete < 3:
+                concrete += 1
+                ctx.violation("C20 fails on the matrices the assembly uses for a bar of %d finite elements: %s" % (len(o["Pre"][-1]["Bars"][0]["Nodes"]) - 1, "; ".join(fails[:3])),
+                              {"case": c, "failures": fails[:10], "how": "harness/bin/dump pipeline (MakeSystemOfEquations) on the definition text in case.Text"})
+        ctx.coverage["assembled_many_element_bars"] = len(many)
     # correspondence: generated kernel evaluated in Coq vs the Go function
     mism = None
     usable = [(c, o) for c, o in zip(cases, outs) if not o.get("Panic") and all(C.isfinite_s(v) for r in o["K"] for v in r)]
